@@ -207,6 +207,12 @@ class NormCtx:
         elif op in ('lt', 'le', 'gt', 'ge', 'eq', 'ne') and n.args[0].sort == 'R':
             P = self.P
             p = P.padd(P.of(n.args[0]), P.of(n.args[1]), -1)
+            if op in ('eq', 'ne') and p:
+                # zero test with denominators cleared (sound: multipliers are non-zero)
+                try:
+                    if not P.cleared(p): p = {}
+                except Exception:
+                    pass
             c, key, q = P.canon(p)
             if not p:
                 lhs = z3.RealVal(0)
